@@ -14,7 +14,7 @@ for p in "$@"; do
   git checkout -q -f "$OLD"; git clean -fdq
   if ! git apply --index "$p" 2>/dev/null; then echo "NOAPPLY $p"; continue; fi
   git commit -qm x --allow-empty
-  if git cherry-pick "$NEW" >/dev/null 2>&1; then
+  if git cherry-pick "$OLD..$NEW" >/dev/null 2>&1; then
     git diff "$NEW" HEAD > "$p.new"
     if [ -s "$p.new" ]; then mv "$p.new" "$p"; echo "OK $p"; else echo "EMPTY $p"; rm -f "$p.new"; fi
   else
